@@ -10,7 +10,8 @@ from rules.common import RuleProxy
 CROSS = {
     "C01": [("C10", "R3_search_siblings", "a swap that skips an initialised tick trades against liquidity that is not there"),
             ("C05", "R2_one_delta", "tick updates seeded with the wrong side's growth credit fees nobody paid"),
-            ("C15", "R4_loaders_and_unchecked", "a tick array of another pool lets one pool's liquidity be counted in another")],
+            ("C15", "R4_loaders_and_unchecked", "a tick array of another pool lets one pool's liquidity be counted in another"),
+            ("xfer", "R_cpi_builders", "deposits must arrive in the vault and only pool-signed outflows may leave it, for the amount computed")],
     "C03": [("C16", "R5_tlv_reader", "the fee schedule of the current epoch decides what the trader pays and receives")],
     "C05": [("C13", "R4_size_and_rent", "a dynamic array that shrinks while a tick stays initialised loses that tick's net / gross"),
             ("C13", "R5_shared_checks", "a tick booked into the wrong slot is liquidity at the wrong price"),
@@ -26,6 +27,7 @@ CROSS = {
     "C13": [("C12", "R3_accessors", "a de-initialised fixed slot must be cleared as a dynamic one is")],
     "C14": [("C16", "R1_swap_wiring", "the v2 wrapper must hand on the updated adaptive-fee variables"),
             ("C20", "R4_fee_manager_ports", "program and SDK fee managers are each other's reference")],
+    "C16": [("xfer", "R_cpi_builders", "checked transfers carry the mint, its decimals and - iff it has a hook - the hook accounts")],
     "C17": [("C14", "R4_gates", "a leg that could not trade on its own must stop the two-hop"),
             ("C15", "R1_token_accounts", "each leg's vaults are the vaults of that leg's pool")],
     "C18": [("C15", "R3_back_references", "a position is re-ranged against its own pool only")],
@@ -45,7 +47,10 @@ def apply(run, prop):
             run.missing("RX", "%s.%s" % (m, f), "cross-check needs the SDK facts")
             continue
         try:
-            getattr(mod, f)(RuleProxy(run, "RX"))
+            if m == "xfer":
+                getattr(mod, f)(run, "RX")
+            else:
+                getattr(mod, f)(RuleProxy(run, "RX"))
         except AnchorMissing as e:
             run.missing("RX", "anchor:%s.%s" % (m, f.split("_")[0]), str(e))
         except Exception as e:
